@@ -5,6 +5,8 @@ POOL_TYPES = ["node", "array", "small"]
 SOURCES = ["grow", "fixed", "blk", "static", "virtual"]
 POOL_KINDS = ["pool<%s>/%s" % (t, s) for t in POOL_TYPES for s in SOURCES]
 
+COLL_KINDS = ["coll<%s,%s>/%s" % (t, b, s) for b in ("identity", "log2") for t in POOL_TYPES for s in SOURCES]
+
 ASSUME_COMMON = [
     "the instrumented upstream allocators (probes) and the shadow heap are correct",
     "histories are contract-respecting as listed in DESIGN.md section 5",
@@ -16,21 +18,31 @@ def chunks(n, size):
     return [(a, min(n, a + size)) for a in range(0, n, size)]
 
 
-def pool_jobs(cfgs, groups, ncases, ops, chunk, flavour="asan", kinds=POOL_KINDS):
+def hist_jobs(harness, kinds, cfgs, groups, ncases, ops, chunk, flavour="asan", cpu=40):
     jobs = []
     for cfg in cfgs:
         for g in groups:
             for k in kinds:
                 for c in chunks(ncases, chunk):
-                    jobs.append(Job("h_pool", cfg, flavour, g, k, c, ops=ops))
+                    jobs.append(Job(harness, cfg, flavour, g, k, c, ops=ops, cpu=cpu))
     return jobs
+
+
+def pool_jobs(cfgs, groups, ncases, ops, chunk, flavour="asan", kinds=POOL_KINDS):
+    return hist_jobs("h_pool", kinds, cfgs, groups, ncases, ops, chunk, flavour)
+
+
+def coll_jobs(cfgs, groups, ncases, ops, chunk, flavour="asan", kinds=COLL_KINDS):
+    return hist_jobs("h_coll", kinds, cfgs, groups, ncases, ops, chunk, flavour)
 
 
 def plan_c04(tier, seed):
     q = tier == "quick"
     cfgs = ["rwd", "dbg"] if q else ["rel", "rwd", "dbg", "dbg16", "chk"]
-    n = 24 if q else 400
-    jobs = pool_jobs(cfgs, ["walk", "phased", "corner"], n, 250 if q else 400, n if q else 100)
+    n = 100 if q else 1500
+    ops = 250 if q else 400
+    jobs = pool_jobs(cfgs, ["walk", "phased", "corner"], n, ops, n if q else 150) \
+        + coll_jobs(cfgs, ["walk", "phased", "corner"], n // 2, ops, n if q else 150)
     return dict(jobs=jobs, level="exploration",
                 rule="case = (config, pool kind x block source, generator mode walk|phased|corner, index); operations drawn from a "
                      "seeded PRNG; non-trivial = the history releases memory and contains an array whose byte size is not a multiple "
